@@ -337,7 +337,7 @@ def handlePtr : List String → String
   | ["index", _k, n, off, i, j, v] =>
     match n.toNat?, off.toNat?, i.toNat?, j.toNat?, v.toInt? with
     | some n, some off, some i, some j, some v =>
-      let (H, _) := Heap.alloc Heap.empty ((List.range n).map fun k => ((k : Int) + 1))
+      let (H, _) := Heap.alloc Heap.empty ((List.range n).map fun (k : Nat) => ((k : Int) + 1))
       let P0 : PHeap := { heap := H, ptrs := [] }
       let (P1, p) := addrCell P0 { obj := 0, slot := i }
       let (P2, q) := addrCell P1 { obj := 0, slot := off + j }
